@@ -185,6 +185,24 @@ def check(ctx: Ctx) -> None:
                     re_ = [e for e in others if e.callee == "RemoteError"]
                     ok = ok and cid == MID and so == const(False) and len(ld) == 1 and ld[0].args == (MDATA,) and not ld[0].kwargs and len(re_) == 1 \
                         and re_[0].args == (ld[0].result,) and rerr == re_[0].result and len(others) == 2
+            if not ok and code in (5, 6, 7):
+                # the same judged by what the handler *does* to the channel (close transition inlined), wherever the steps live:
+                # the addressed channel's waiters are released, the id is unregistered, closed iff the code says so
+                from ._chan import close_effects
+                ce = close_effects(repo, h)
+                ok = bool(ce) and all(c["id"] == MID and c["unregistered"] and c["endmarker"] is not False and c["closed"] == (code != 7) for c in ce)
+                if ok and code == 6:
+                    for c in ce:
+                        st6 = c["state"]
+                        if c["error"] is None:
+                            continue
+                        mk = [e for e in st6.events if e.kind == "call" and e.result == c["error"]]
+                        ld = [e for e in st6.events if e.kind == "call" and mk and mk[0].args and e.result == mk[0].args[0]]
+                        ok = ok and bool(mk) and str(mk[0].callee or "").endswith("RemoteError") and bool(ld) and str(ld[0].callee or "").endswith("loads_internal") \
+                            and ld[0].args == (MDATA,) and not ld[0].kwargs
+                    ok = ok and any(c["error"] is not None for c in ce)
+                elif ok:
+                    ok = all(c["error"] is None for c in ce)
             what = {4: "_local_receive(id, payload)", 5: "_local_close(id)", 6: "_local_close(id, RemoteError(loads_internal(payload)))", 7: "_local_close(id, sendonly=True)"}[code]
             ob.site(h, h.node, f"code {code} ({MESSAGE_TABLE[code][0]}): handler {h.name} -> {what}", ok=ok)
             if not ok:
